@@ -114,6 +114,9 @@ func mayBeNilValue(v ssa.Value) bool {
 			if n == "fmt.Errorf" || n == "errors.New" {
 				return false
 			}
+			if neverReturnsNil(callee, 0) {
+				return false
+			}
 		}
 		return true
 	case *ssa.Phi:
@@ -123,7 +126,13 @@ func mayBeNilValue(v ssa.Value) bool {
 			}
 		}
 		return false
-	case *ssa.Extract, *ssa.UnOp, *ssa.Parameter, *ssa.FreeVar:
+	case *ssa.UnOp:
+		// package-level sentinel error (var errX = errors.New(...)) stored once, in init
+		if g, ok := x.X.(*ssa.Global); ok && x.Op == token.MUL && sentinelGlobal(g) {
+			return false
+		}
+		return true
+	case *ssa.Extract, *ssa.Parameter, *ssa.FreeVar:
 		// an error value tested with `err != nil` before the return: check the
 		// dominating conditions of the defining use in isErrorExitAt
 		return true
@@ -670,4 +679,83 @@ func (f *funcFacts) regionPaths(d, b *ssa.BasicBlock) []regionPath {
 		return nil
 	}
 	return out
+}
+
+var neverNilMemo = map[*ssa.Function]int{}
+
+// neverReturnsNil: every return of fn yields a freshly allocated / boxed value.
+func neverReturnsNil(fn *ssa.Function, depth int) bool {
+	if v, ok := neverNilMemo[fn]; ok {
+		return v == 1
+	}
+	neverNilMemo[fn] = 2
+	if len(fn.Blocks) == 0 || depth > 3 || fn.Signature.Results().Len() != 1 {
+		return false
+	}
+	ok := true
+	n := 0
+	for _, b := range fn.Blocks {
+		ret, isRet := b.Instrs[len(b.Instrs)-1].(*ssa.Return)
+		if !isRet {
+			continue
+		}
+		n++
+		switch r := ret.Results[0].(type) {
+		case *ssa.Alloc, *ssa.MakeInterface:
+		case *ssa.Call:
+			c := r.Call.StaticCallee()
+			if c == nil || !(c.String() == "fmt.Errorf" || c.String() == "errors.New" || neverReturnsNil(c, depth+1)) {
+				ok = false
+			}
+		default:
+			ok = false
+		}
+	}
+	if n == 0 {
+		ok = false
+	}
+	if ok {
+		neverNilMemo[fn] = 1
+	}
+	return ok
+}
+
+var sentinelMemo = map[*ssa.Global]int{}
+
+// sentinelGlobal: a package-level variable assigned exactly once, in the
+// package initialiser, with a non-nil value.
+func sentinelGlobal(g *ssa.Global) bool {
+	if v, ok := sentinelMemo[g]; ok {
+		return v == 1
+	}
+	sentinelMemo[g] = 2
+	if g.Pkg == nil {
+		return false
+	}
+	n, good := 0, true
+	for _, m := range g.Pkg.Members {
+		fn, ok := m.(*ssa.Function)
+		if !ok {
+			continue
+		}
+		fns := append([]*ssa.Function{fn}, fn.AnonFuncs...)
+		for _, f := range fns {
+			for _, b := range f.Blocks {
+				for _, in := range b.Instrs {
+					if st, ok := in.(*ssa.Store); ok && st.Addr == g {
+						n++
+						if f.Name() != "init" || isNilConst(st.Val) || mayBeNilValue(st.Val) {
+							good = false
+						}
+					}
+				}
+			}
+		}
+	}
+	// methods of types in the package may store too
+	if n == 1 && good {
+		sentinelMemo[g] = 1
+		return true
+	}
+	return false
 }
